@@ -24,7 +24,7 @@
 typedef struct { uint8_t *p; size_t len; int used; char type[8]; int fmt; } slot_t;
 static slot_t slots[NSLOT];
 
-static int has_pc = 0, has_eb = 0, cur_curve = -1;
+static int has_pc = 0, has_eb = 0, has_ed = 0, cur_curve = -1;
 
 /* one working object per type (x = generated, y = decoded) */
 static bn_t bx, by;
@@ -39,6 +39,10 @@ static fb_t bfx, bfy;
 static ep_t ex, ey;
 static ep2_t e2x, e2y;
 static eb_t ebx, eby;
+#if defined(WITH_ED) && FP_PRIME == 255
+#define SIM_ED 1
+static ed_t edx, edy;
+#endif
 static gt_t gx, gy;
 
 static void slot_set(int s, const uint8_t *b, size_t len) {
@@ -74,6 +78,14 @@ static void print_params(void) {
 		log_fp("b20", ep2_curve_get_b()[0]); log_fp("b21", ep2_curve_get_b()[1]);
 	}
 	tr_str("\n");
+#ifdef SIM_ED
+	if (has_ed) {
+		tr_str("PARAME");
+		log_fp("a", core_get()->ed_a);
+		log_fp("d", core_get()->ed_d);
+		tr_str("\n");
+	}
+#endif
 	if (has_eb) {
 		uint8_t tb[RLC_FB_BYTES];
 		bn_t q;
@@ -123,6 +135,15 @@ static int set_curve(const char *name) {
 		}
 		cur_curve = id;
 		has_pc = pc;
+#ifdef SIM_ED
+		/* the Edwards curve lives over the prime of Curve25519: selected alongside it (its own layer of the
+		 * context), unavailable over any other prime */
+		has_ed = 0;
+		if (id == CURVE_25519) {
+			if (ed_param_set_any() == RLC_OK) has_ed = 1;
+			(void)err_get_code();
+		}
+#endif
 	}
 	(void)err_get_code();
 	return 0;
@@ -193,6 +214,13 @@ static void gen_obj(const char *type, const char *g) {
 		else if (!strcmp(g, "gen")) eb_curve_get_gen(ebx);
 		else if (!strcmp(g, "proj")) { eb_rand(ebx); eb_dbl_projc(ebx, ebx); }
 		else eb_rand(ebx);
+#ifdef SIM_ED
+	} else if (!strcmp(type, "ed")) {
+		if (!strcmp(g, "inf")) ed_set_infty(edx);
+		else if (!strcmp(g, "gen")) ed_curve_get_gen(edx);
+		else if (!strcmp(g, "proj")) { ed_rand(edx); ed_dbl(edx, edx); }
+		else ed_rand(edx);
+#endif
 	} else if (!strcmp(type, "gt")) {
 		if (!strcmp(g, "one")) gt_set_unity(gx);
 		else if (!strcmp(g, "gen")) gt_get_gen(gx);
@@ -222,6 +250,9 @@ static long size_obj(const char *type, int fmt) {
 	if (!strcmp(type, "g2")) return (long)g2_size_bin(e2x, fmt);
 	if (!strcmp(type, "eb")) return (long)eb_size_bin(ebx, fmt);
 	if (!strcmp(type, "gt")) return (long)gt_size_bin(gx, fmt);
+#ifdef SIM_ED
+	if (!strcmp(type, "ed")) return (long)ed_size_bin(edx, fmt);
+#endif
 	return -1;
 }
 
@@ -243,6 +274,9 @@ static void write_obj(const char *type, int fmt, uint8_t *buf, size_t len, int w
 	else if (!strcmp(type, "g2")) g2_write_bin(buf, len, which ? e2y : e2x, fmt);
 	else if (!strcmp(type, "eb")) eb_write_bin(buf, len, which ? eby : ebx, fmt);
 	else if (!strcmp(type, "gt")) gt_write_bin(buf, len, which ? gy : gx, fmt);
+#ifdef SIM_ED
+	else if (!strcmp(type, "ed")) ed_write_bin(buf, len, which ? edy : edx, fmt);
+#endif
 }
 
 static void read_obj(const char *type, const uint8_t *buf, size_t len) {
@@ -262,6 +296,9 @@ static void read_obj(const char *type, const uint8_t *buf, size_t len) {
 	else if (!strcmp(type, "g2")) g2_read_bin(e2y, buf, len);
 	else if (!strcmp(type, "eb")) eb_read_bin(eby, buf, len);
 	else if (!strcmp(type, "gt")) gt_read_bin(gy, buf, len);
+#ifdef SIM_ED
+	else if (!strcmp(type, "ed")) ed_read_bin(edy, buf, len);
+#endif
 }
 
 /* decoded == generated ? */
@@ -279,6 +316,9 @@ static int same_obj(const char *type) {
 	if (!strcmp(type, "ep2") || !strcmp(type, "g2")) return ep2_cmp(e2x, e2y) == RLC_EQ;
 	if (!strcmp(type, "eb")) return eb_cmp(ebx, eby) == RLC_EQ;
 	if (!strcmp(type, "gt")) return gt_cmp(gx, gy) == RLC_EQ;
+#ifdef SIM_ED
+	if (!strcmp(type, "ed")) return ed_cmp(edx, edy) == RLC_EQ;
+#endif
 	return 0;
 }
 
@@ -287,6 +327,7 @@ static int fmt_of_len(const char *type, size_t len) {
 	if (!strcmp(type, "ep") || !strcmp(type, "g1")) return len == RLC_FP_BYTES + 1;
 	if (!strcmp(type, "ep2") || !strcmp(type, "g2")) return len == 2 * RLC_FP_BYTES + 1;
 	if (!strcmp(type, "eb")) return len == RLC_FB_BYTES + 1;
+	if (!strcmp(type, "ed")) return len == RLC_FP_BYTES + 1;
 	if (!strcmp(type, "fp2")) return len == RLC_FP_BYTES + 1;
 	if (!strcmp(type, "fp8")) return len != 8 * RLC_FP_BYTES;
 	if (!strcmp(type, "fp12") || !strcmp(type, "gt")) return len == 8 * RLC_FP_BYTES;
@@ -296,6 +337,7 @@ static int fmt_of_len(const char *type, size_t len) {
 static int type_ok(const char *type) {
 	if ((!strcmp(type, "ep2") || !strcmp(type, "g2") || !strcmp(type, "gt") || !strcmp(type, "g1")) && !has_pc) return 0;
 	if ((!strcmp(type, "eb") || !strcmp(type, "fb")) && !has_eb) return 0;
+	if (!strcmp(type, "ed") && !has_ed) return 0;
 	return 1;
 }
 
@@ -321,6 +363,9 @@ static void engine_boot(void) {
 	gt_null(gx); gt_null(gy); gt_new(gx); gt_new(gy);
 	if (eb_param_set_any() == RLC_OK) has_eb = 1;
 	(void)err_get_code();
+#ifdef SIM_ED
+	ed_null(edx); ed_null(edy); ed_new(edx); ed_new(edy);
+#endif
 }
 
 static void apply_fault(slot_t *s, const char *kind, long a, long b, int src) {
@@ -474,6 +519,9 @@ static void engine_run(void) {
 						if (!strcmp(type, "ep") || !strcmp(type, "g1")) { ep_norm(ey, ex); ep_copy(ex, ey); alt = 1; }
 						if (!strcmp(type, "ep2") || !strcmp(type, "g2")) { ep2_norm(e2y, e2x); ep2_copy(e2x, e2y); alt = 1; }
 						if (!strcmp(type, "eb")) { eb_norm(eby, ebx); eb_copy(ebx, eby); alt = 1; }
+#ifdef SIM_ED
+						if (!strcmp(type, "ed")) { ed_norm(edy, edx); ed_copy(edx, edy); alt = 1; }
+#endif
 						if (alt) {
 							alt_len = (size_t)size_obj(type, fmt);
 							write_obj(type, fmt, buf2, alt_len, 0);
